@@ -966,9 +966,9 @@ def gen_path_case(rng, flavour=None, thorough=False):
         bands = [(191.4e12, 195.0e12)] + ([(186.6e12, 190.0e12)] if eq == 'multiband' else [])
         for (lo, hi) in bands:
             f = lo + rng.randint(0, 20) * 50e9
-            for k in range(rng.randint(2, 3) if ggn else (1 if tiny else rng.randint(1, 3))):
+            for k in range((rng.randint(2, 3) if thorough else 2) if ggn else (1 if tiny else rng.randint(1, 3))):
                 sw, br = rng.choice(SLOTS[:7])
-                nch = rng.randint(1, 4 if tiny else (6 if not thorough else 14))
+                nch = rng.randint(1, (4 if thorough else 3) if tiny else (6 if not thorough else 14))
                 f_min = f + sw / 2
                 f_max = f_min + (nch - 1) * sw
                 if f_max + sw / 2 > hi:
@@ -1628,7 +1628,9 @@ def process_path(ctx, case, path_oracle_fn, sample_k, terms, meta):
         terms.append(term)
         meta.append(('elem', case, c, exp, prob, summ))
     try:
-        for (term, uid, i, raw, rep) in trx_terms(rng, res, 3):
+        # (a path that left the scope -- NLI estimate above the channel power / not a number -- has shares outside [0,1]
+        #  and figures that are not numbers: its receivers are not replayed)
+        for (term, uid, i, raw, rep) in (trx_terms(rng, res, 3) if not res.get('out_of_scope') else []):
             terms.append(term)
             meta.append(('trx', case, uid, i, raw, rep))
     except Exception as e:
